@@ -31,6 +31,30 @@ Theorem C10_sort_by_key_tie_refuted :
 Proof. exact sort_by_tie_refuted. Qed.
 Print Assumptions C10_sort_by_key_tie_refuted.
 
+(* selective generation: a declaration-ordered dict filtered by MEMBERSHIP in the allow-set does not depend on how the set is enumerated;
+   it keeps exactly the allowed keys, in declaration order (the two equations characterise the order) *)
+Theorem C10_prune_decl_enum_invariant : forall decl a1 a2,
+  (forall y, In y a1 <-> In y a2) -> prune_decl decl a1 = prune_decl decl a2.
+Proof. exact prune_decl_enum_invariant. Qed.
+Print Assumptions C10_prune_decl_enum_invariant.
+
+Theorem C10_prune_decl_keeps_exactly : forall decl allow k, In k (prune_decl decl allow) <-> In k decl /\ In k allow.
+Proof. exact prune_decl_keeps_exactly. Qed.
+Print Assumptions C10_prune_decl_keeps_exactly.
+
+Theorem C10_prune_decl_order : forall d1 d2 k allow,
+  (prune_decl (d1 ++ d2) allow = prune_decl d1 allow ++ prune_decl d2 allow)%list
+  /\ prune_decl [k] allow = if mem_str k allow then [k] else [].
+Proof. intros d1 d2 k allow. split; [apply prune_decl_app | apply prune_decl_single]. Qed.
+Print Assumptions C10_prune_decl_order.
+
+(* ... whereas walking the SET keeps the same keys but in the set's enumeration order *)
+Theorem C10_prune_by_set_refuted :
+  exists decl a1 a2, NoDup a1 /\ NoDup a2 /\ (forall y, In y a1 <-> In y a2) /\
+                     prune_by_set decl a1 <> prune_by_set decl a2.
+Proof. exact prune_by_set_refuted. Qed.
+Print Assumptions C10_prune_by_set_refuted.
+
 (* T0: the site inventory regenerated from /repo is exactly the classified table *)
 Theorem C10_every_site_classified : forall s, In s SITES -> In s (map fst CLASSIFIED).
 Proof.
